@@ -2,6 +2,7 @@
 exact zero for nodes with < 2 neighbours / no triangle, values in [0,1] for weights in [0,1]."""
 import sys
 from common import *  # noqa
+sys.path.insert(0, os.path.join(VERIF, 'translate')); import cores  # noqa: E402
 import cluster_common as cc
 from cluster_common import F
 
@@ -146,7 +147,7 @@ def run_case(case):
         if _TIMEOUTS.get(name, 0) >= 2:
             res['skipped'] = res.get('skipped', 0) + 1; continue
         if rep:     # the same network stored in another dtype / memory layout; a fresh array per call, never normalised by a copy
-            st, out = cc.run_bct(bct, name, cc.represent(Wf, dtype, order), copy=False)
+            st, out = cc.run_bct(bct, name, cc.represent(Wf, dtype, order, rep.get('negzero', False)), copy=False)
         else:
             st, out = cc.run_bct(bct, name, Wf)
         if st == 'timeout':
@@ -282,7 +283,12 @@ def main():
                        'a network without any connected triple has undefined transitivity (0/0 = nan in bct, none in the model): no claim']
     ck.trusted = TRUSTED_DEFAULT + ['x**(1/3) of NumPy is not modelled: the model takes the exact rational cube root (theorem rootMat_sound), '
                                     'tied to bct only on perfect-cube weights within 1e-9']
+    # T-gen: whole bodies of the eight clustering / transitivity routines re-extracted from /repo's current source
+    ck.cov['cores'] = cores.generate(families=['clust'])
+    for p_ in ck.cov['cores']['problems']:
+        ck.corr_break('core extractor (translate/cores.py)', p_)
     ok = ck.lean_gate(['BctVerif.Props.C09'], extra_modules=['BctVerif.Model.Cluster'])
+    ck.lean_gate([], gen_modules=['BctVerif.Gen.CoresClust'])
     if ck.tier == 'thorough' and ok:
         ck.leanchecker(['BctVerif.Props.C09', 'BctVerif.Model.Cluster'])
     if ck.replay:
@@ -318,6 +324,7 @@ def main():
         ck.count('calls skipped after repeated timeouts', r.get('skipped', 0))
         if c.get('rep'):
             ck.count('representation:%s/%s' % (c['rep']['dtype'], c['rep']['order']))
+            ck.count('representation: zeros stored as -0.0', int(bool(c['rep'].get('negzero'))))
             ck.count('storage type rejected by the routine (OverflowError on int / TypeError on bool): no claim', r.get('rejected', 0))
         for name, st, out, exact, tolean in r['funcs']:
             ck.count('calls:' + name); ck.count('status:' + st)
